@@ -314,44 +314,48 @@ func rulePrune(c *Ctx, r *Report) {
 	for _, call := range CallsIn(info, f.Decl.Body, "reflect.Value.Set") {
 		ns++
 		zero := len(call.Args) == 1 && IsCall(info, call.Args[0], "reflect.Zero")
-		facts := c.FactsAt(f, call, true)
-		structPtr := factHasCall(info, facts, true, P("util")+".IsTypeStructPtr")
-		om := false
-		for _, ft := range facts {
-			if ft.Kind == "cond" && ft.Pos {
-				if id, ok := ast.Unparen(ft.Cond).(*ast.Ident); ok {
-					// ok of a GoOrderedMap assertion
+		// classify: what a set of facts establishes about the field that is being zeroed.
+		classify := func(facts []Fact) (structPtr, om, empty bool) {
+			structPtr = factHasCall(info, facts, true, P("util")+".IsTypeStructPtr")
+			for _, ft := range facts {
+				if ft.Kind != "cond" {
+					continue
+				}
+				if ft.Pos && (len(CallsIn(info, ft.Cond, "reflect.DeepEqual")) > 0 || strings.Contains(types.ExprString(ft.Cond), "Len() == 0")) {
+					empty = true
+				}
+				if id, ok := ast.Unparen(ft.Cond).(*ast.Ident); ok && ft.Pos {
 					obj := info.ObjectOf(id)
 					ast.Inspect(f.Decl.Body, func(m ast.Node) bool {
-						if as, ok := m.(*ast.AssignStmt); ok && len(as.Lhs) == 2 && ObjOf(info, as.Lhs[1]) == obj {
+						as, ok := m.(*ast.AssignStmt)
+						if !ok {
+							return true
+						}
+						// ok of a GoOrderedMap assertion
+						if len(as.Lhs) == 2 && ObjOf(info, as.Lhs[1]) == obj {
 							if ta, ok := as.Rhs[0].(*ast.TypeAssertExpr); ok && strings.HasSuffix(typeName(info, ta.Type), "GoOrderedMap") {
 								om = true
 							}
+						}
+						// childPruned := pruneBranchesInternal(...)
+						if len(as.Lhs) == 1 && len(as.Rhs) == 1 && ObjOf(info, as.Lhs[0]) == obj && IsCall(info, as.Rhs[0], P("ygot")+".pruneBranchesInternal") {
+							empty = true
 						}
 						return true
 					})
 				}
 			}
+			return
 		}
-		empty := false
-		for _, ft := range facts {
-			switch ft.Kind {
-			case "cond":
-				if ft.Pos && (len(CallsIn(info, ft.Cond, "reflect.DeepEqual")) > 0 || strings.Contains(types.ExprString(ft.Cond), "Len() == 0")) {
-					empty = true
-				}
-				if ft.Pos {
-					if id, ok := ast.Unparen(ft.Cond).(*ast.Ident); ok {
-						// childPruned := pruneBranchesInternal(...)
-						obj := info.ObjectOf(id)
-						ast.Inspect(f.Decl.Body, func(m ast.Node) bool {
-							if as, ok := m.(*ast.AssignStmt); ok && len(as.Lhs) == 1 && ObjOf(info, as.Lhs[0]) == obj && IsCall(info, as.Rhs[0], P("ygot")+".pruneBranchesInternal") {
-								empty = true
-							}
-							return true
-						})
-					}
-				}
+		structPtr, om, empty := classify(c.FactsAt(f, call, true))
+		if zero && !((structPtr || om) && empty) {
+			// the lexical reading fails when several branches fall into one shared Set: ask for
+			// the same three facts on every control-flow path that reaches it.
+			if holds, decided := c.EveryPath(f, call, func(facts []Fact) bool {
+				sp, o, e := classify(facts)
+				return (sp || o) && e
+			}); decided && holds {
+				structPtr, empty = true, true
 			}
 		}
 		r.Check(zero && (structPtr || om) && empty, fmt.Sprintf("ygot.pruneBranchesInternal:Set#%d", ns), c.Pos(call.Pos()),
